@@ -59,7 +59,7 @@ def build(tier):
         def kw(nx, ny, share=False):
             pm = min(4, max(nx * max(ny, 1), nx + ny, 1) + 1)     # most disjuncts any state can have (meet: nx*ny, join: nx+ny, add_disjunct: nx+1)
             bound = {"unwind": max(nx + ny, 2) + 1, "ps_max": pm,
-                     "unwindset": "ps_nth.0:%d,ps_count.0:%d,ps_sat.0:%d,ps_omega_reduced.0:%d,ps_omega_reduced.1:%d,ps_wf.0:%d" % (pm + 2, pm + 3, pm + 2, pm + 2, pm + 2, pm + 2),   # the constant-bound loops of the spec functions
+                     "unwindset": "ps_boxes.0:%d,ps_sat.0:%d,ps_omega_reduced.0:%d,ps_omega_reduced.1:%d,ps_wf.0:%d" % (pm + 2, pm + 2, pm + 2, pm + 2, pm + 2),   # the constant-bound loops of the spec functions
                      "note": "x has %d and y has %d disjuncts%s, space dimension %d; disjunct boxes (bounds, special/open bits, status flags), reduced flags and ghost point arbitrary; loops unwound with unwinding assertions" % (nx, ny, " (first ones sharing one representation)" if share else "", d)}
             return dict(bounded=bound, timeout=3000, object_bits=11, defs={"BOX_D": d, "PS_MAX": pm, "GHOST_RANGE": "((ex_t)%d)" % (1 << (u.defs["T_W"] + 1))}, split_post=False,
                         stubs=["c12_ghost.c", "c17_ghost.c", "c09_ps.c"], harness_pre=setup(nx, ny, share), group="powerset %s %s" % (tt, pol), mem_gb=40)
@@ -75,6 +75,9 @@ def build(tier):
             for (op, lhs, cast) in OPS2:
                 T.append(Task("%s/%s/%s/x%dy%d" % (tt, pol, op, nx, ny), u, "FN_s_" + op, ["C09/powerset.h"], svars(), "%sFN_s_%s(%s&G_sx, %s&G_sy)" % (lhs, op, cast, cast),
                               reach=[("point in both unions", "G_ssatX0 && G_ssatY0"), ("point in x only", "G_ssatX0 && !G_ssatY0")], **kw(nx, ny)))
+        for (nx, ny) in ([(1, 2)] if tier == "quick" else [(1, 2), (2, 1), (0, 2)]):
+            T.append(Task("%s/%s/assign/x%dy%d" % (tt, pol, nx, ny), u, "FN_s_assign", ["C09/powerset.h"], svars(), "PS_T *rr = FN_s_assign(&G_sx, &G_sy)",
+                          reach=[("source not omega-reduced", "!ps_omega_reduced(&G_sy)"), ("point in the source", "G_ssatY0")], **kw(nx, ny)))
         # copy on write: y's first disjunct shares its representation with x's first disjunct; mutating x must not change y
         for (op, lhs, cast) in [("topological_closure", "", ""), ("omega_reduce", "", "(POW_T *)"), ("collapse", "", "(POW_T *)")]:
             k = kw(2, 1, True)
